@@ -234,6 +234,12 @@ func (s *Sim) Close() {
 		cur = nil
 	}
 	curMu.Unlock()
+	// goroutines of the finished simulation may stay parked for the rest of the process and
+	// keep this Sim reachable: let go of what is large
+	s.mu.Lock()
+	s.logbuf = nil
+	s.hooks = nil
+	s.mu.Unlock()
 }
 
 func (s *Sim) Now() time.Duration { return time.Since(s.start) }
